@@ -500,6 +500,20 @@ func runC13(r *Run) {
 
 var errBoom = errors.New("boom")
 
+// error results declared with a concrete type or with an interface that embeds error
+type c13Err struct{ msg string }
+
+func (e *c13Err) Error() string { return e.msg }
+
+type c13Coded interface {
+	error
+	Code() int
+}
+type c13CodeErr struct{ code int }
+
+func (e c13CodeErr) Error() string { return fmt.Sprint("code ", e.code) }
+func (e c13CodeErr) Code() int     { return e.code }
+
 func c13Pipes(r *Run) {
 	funcs := vuego.FuncMap{
 		"double": func(n int) int { return 2 * n },
@@ -509,6 +523,10 @@ func c13Pipes(r *Run) {
 		"isPos":  func(n int) bool { return n > 0 },
 		"fails":  func(s string) (string, error) { return "", errBoom },
 		"ustr":   func(u uint) string { return fmt.Sprint("u", u) },
+		"failsPtr":   func(s string) (string, *c13Err) { return "kept", &c13Err{"ptr boom"} },
+		"okPtr":      func(s string) (string, *c13Err) { return s + "!", nil },
+		"failsCoded": func(s string) (string, c13Coded) { return "kept", c13CodeErr{7} },
+		"okCoded":    func(s string) (string, c13Coded) { return s + "?", nil },
 		"tag": func(ctx *vuego.VueContext, v any, opts ...string) string { // context-injected and variadic
 			return fmt.Sprintf("%T:%v:%s", v, v, strings.Join(opts, ","))
 		},
@@ -554,6 +572,20 @@ func c13Pipes(r *Run) {
 		{`tag("p", "q")`, "tag", func(v any) (any, bool) { return fmt.Sprintf("%T:%v:p,q", v, v), true }},
 		{"tag", "tag", func(v any) (any, bool) { return fmt.Sprintf("%T:%v:", v, v), true }},
 		{"nosuch", "nosuch", func(v any) (any, bool) { return nil, false }},
+		{"failsPtr", "failsPtr", func(v any) (any, bool) { return nil, false }},
+		{"failsCoded", "failsCoded", func(v any) (any, bool) { return nil, false }},
+		{"okPtr", "okPtr", func(v any) (any, bool) {
+			if sv, ok := asStr(v); ok {
+				return sv + "!", true
+			}
+			return nil, false
+		}},
+		{"okCoded", "okCoded", func(v any) (any, bool) {
+			if sv, ok := asStr(v); ok {
+				return sv + "?", true
+			}
+			return nil, false
+		}},
 		{"fails", "fails", func(v any) (any, bool) { return nil, false }},
 		{"join2", "join2", func(v any) (any, bool) { return nil, false }},         // wrong argument count
 		{"double(1, 2)", "double", func(v any) (any, bool) { return nil, false }}, // wrong argument count
